@@ -143,6 +143,9 @@ type FOScenario struct {
 	// sentinel, without the expired item ("may implement ErrWithExpiredItem to enable stale value serving":
 	// this one does not). For the frontend such an entry is as good as absent.
 	PlainExpired bool `json:"plain_expired,omitempty"`
+	// ExpireAllFirst: before the clients start, another part of the application calls ExpireAll on the backend
+	// (an invalidation). Entries that had expired before are expired still - since when they were.
+	ExpireAllFirst bool `json:"expire_all_first,omitempty"`
 	// ValRep: representation of values handed to the untyped API ("" token struct, slice, map, box, ptr).
 	ValRep       string   `json:"val_rep,omitempty"`
 	Backend      string   `json:"backend"` // sharded | syncmap | shardedOf
@@ -206,6 +209,7 @@ type buildRec struct {
 	task          string
 	ctxErrEnter   error
 	ctxErrExit    error
+	causeExit     error // context.Cause at builder exit
 	hasDeadline   bool
 	doneNil       bool
 	doneFired     bool
@@ -1125,6 +1129,8 @@ func (r *foRun) builder(rec *opRec, ctx context.Context) (Tok, error) {
 	zs.Yield("build.exit")
 
 	b.ctxErrExit = ctx.Err()
+	b.causeExit = context.Cause(ctx)
+
 	if d := ctx.Done(); d != nil {
 		select {
 		case <-d:
@@ -1198,6 +1204,13 @@ func runFO(e *env) {
 	r.construct()
 	r.initState()
 	e.setup = false
+
+	if r.sc.ExpireAllFirst {
+		e.setup = true
+		r.be.expAl(context.Background())
+		e.setup = false
+		e.out.fault("expire_all_before_get")
+	}
 
 	if r.sc.SharedCtxTTLNs != 0 {
 		r.sharedCtx = cache.WithTTL(context.WithValue(context.Background(), markerKey{}, "marker"), dur(r.sc.SharedCtxTTLNs), false)
